@@ -163,7 +163,8 @@ Qed.
 
 Lemma same_row_node : forall a b, same_row a b = true -> c_node a = c_node b /\ c_nb a = c_nb b.
 Proof.
-  unfold same_row. intros a b H. apply andb_true_iff in H. destruct H as [H H2].
+  unfold same_row. intros a b H. apply andb_true_iff in H. destruct H as [H _].
+  apply andb_true_iff in H. destruct H as [H H2].
   apply andb_true_iff in H. destruct H as [_ H1]. apply Z.eqb_eq in H1, H2. tauto.
 Qed.
 
@@ -615,10 +616,10 @@ Section TieFree.
   Qed.
 
   Lemma same_row_intro : forall a b,
-    c_rid a = c_rid b -> c_node a = c_node b -> c_nb a = c_nb b -> same_row a b = true.
+    c_rid a = c_rid b -> c_node a = c_node b -> c_nb a = c_nb b -> (c_p a == c_p b)%Q -> same_row a b = true.
   Proof.
-    intros a b H1 H2 H3. unfold same_row, rid_eqb. rewrite H1, H2, H3, Nat.eqb_refl, eqb_reflx, !Z.eqb_refl.
-    reflexivity.
+    intros a b H1 H2 H3 H4. unfold same_row, rid_eqb. rewrite H1, H2, H3, Nat.eqb_refl, eqb_reflx, !Z.eqb_refl.
+    apply Qeq_bool_iff in H4. rewrite H4. reflexivity.
   Qed.
 
   Lemma tie_same_row : forall a b, In a rows -> In b rows ->
@@ -629,7 +630,7 @@ Section TieFree.
     destruct (cand_prov b Hb) as (j & e' & rl' & rr' & Hje & _ & Hrl' & Hrr' & Hlb & Hrb & Hne' & _ & Hpb & Hnb & Hbb & Hdb).
     rewrite Hpa, Hpb in Hp. destruct (tie_free_index E 0 i j e e' Htf Hie Hje Hp) as [<- <-].
     destruct Hda as [(Hra1 & Hn1 & Hb1)|(Hra1 & Hn1 & Hb1)], Hdb as [(Hrb1 & Hn2 & Hb2)|(Hrb1 & Hn2 & Hb2)].
-    - apply same_row_intro; congruence.
+    - apply same_row_intro; first [congruence | (rewrite Hpa, Hpb; reflexivity)].
     - exfalso.
       assert (rr = rl') by (apply nodup_key_unique with prev; auto; congruence).
       assert (rl = rr') by (apply nodup_key_unique with prev; auto; congruence).
@@ -638,7 +639,7 @@ Section TieFree.
       assert (rr = rl') by (apply nodup_key_unique with prev; auto; congruence).
       assert (rl = rr') by (apply nodup_key_unique with prev; auto; congruence).
       subst. destruct Hpart; congruence.
-    - apply same_row_intro; congruence.
+    - apply same_row_intro; first [congruence | (rewrite Hpa, Hpb; reflexivity)].
   Qed.
 
   Lemma global_max_accepted : forall a, In a rows ->
